@@ -106,7 +106,8 @@ Section Iteration.
 
   Definition chooser := nat -> Z -> list crow -> crow.
   Definition same_row (a b : crow) : bool :=
-    rid_eqb (c_rid a) (c_rid b) && (c_node a =? c_node b) && (c_nb a =? c_nb b).
+    rid_eqb (c_rid a) (c_rid b) && (c_node a =? c_node b) && (c_nb a =? c_nb b)
+    && Qeq_bool (c_p a) (c_p b).
 
   Variables chl chr : chooser.           (* who gets rank_l = 1 / rank_r = 1 *)
   Variable it : nat.
@@ -246,6 +247,41 @@ Definition admissible_cross (dfs : list Z) (thr : option Q) (E : list edge) (t :
   tedge thr E v w /\
   exists cv cw sv sw, In (v, cv, sv) t /\ In (w, cw, sw) t /\ cv <> cw /\
     forall d, In d dfs -> ~ (contains_flag t cv d = true /\ contains_flag t cw d = true).
+
+(* ---------------------------------------------------------------- sequential specification (tie-free) *)
+(* The textbook single-best-link procedure: take the usable edges by decreasing probability and
+   merge the two clusters of an edge iff they share no duplicate-free dataset.  For pairwise
+   distinct probabilities the SQL loop computes exactly this partition (C12_refines_greedy). *)
+Section Greedy.
+  Variable dfs : list Z.
+  Variable nodes : list node.
+  Definition lab := Z -> Z.
+  Definition g_flag (cl : lab) (c d : Z) : bool :=
+    existsb (fun n => (cl (n_id n) =? c) && (n_sds n =? d)) nodes.
+  Definition g_conflict (cl : lab) (c1 c2 : Z) : bool :=
+    existsb (fun d => g_flag cl c1 d && g_flag cl c2 d) dfs.
+  Definition g_step (cl : lab) (e : edge) : lab :=
+    let a := cl (e_l e) in
+    let b := cl (e_r e) in
+    if (a =? b) || g_conflict cl a b then cl else fun x => if cl x =? b then a else cl x.
+  Definition greedy (L : list edge) : lab := fold_left g_step L (fun x => x).
+End Greedy.
+
+Definition is_node (nodes : list node) (v : Z) : bool := existsb (fun n => n_id n =? v) nodes.
+Definition usable (thr : option Q) (nodes : list node) (e : edge) : bool :=
+  above thr (e_p e) && is_node nodes (e_l e) && is_node nodes (e_r e).
+
+(* insertion sort by decreasing probability *)
+Fixpoint insert_desc (e : edge) (l : list edge) : list edge :=
+  match l with
+  | [] => [e]
+  | x :: t => if Qle_bool (e_p x) (e_p e) then e :: l else x :: insert_desc e t
+  end.
+Fixpoint sort_desc (l : list edge) : list edge :=
+  match l with [] => [] | x :: t => insert_desc x (sort_desc t) end.
+
+Definition greedy_clusters (dfs : list Z) (thr : option Q) (nodes : list node) (E : list edge) : lab :=
+  greedy dfs nodes (sort_desc (filter (usable thr nodes) E)).
 
 (* ---------------------------------------------------------------- allowed-step membership (X, ties) *)
 (* rows of maximal probability in a partition: the candidates for rank 1 *)
